@@ -86,6 +86,44 @@ def _value_to_blackbird(v, tdm=False):
     return "{}".format(v)
 
 
+def _bind_parameters(v, values):
+    """Substitutes values for the free parameters of an argument or variable.
+
+    Args:
+        v: a SymPy expression, a list or array that may contain SymPy
+            expressions, or any other value (returned unchanged)
+        values (dict[str, Number]): mapping from parameter names to values
+
+    Returns:
+        the value with all free parameters replaced by their values
+    """
+    if isinstance(v, sym.Expr):
+        par = list(v.free_symbols)
+        func = sym.lambdify(par, v)
+
+        try:
+            # bound by position, since parameter names need not be valid Python argument names
+            vals = [values[str(p)] for p in par]
+        except KeyError:
+            raise ValueError("Invalid value for free parameter provided")
+
+        return func(*vals)
+
+    if isinstance(v, list):
+        return [_bind_parameters(i, values) for i in v]
+
+    if isinstance(v, np.ndarray):
+        # look through the array and, if there are any parameters,
+        # replace them with their corresponding values
+        populated_array = copy.deepcopy(v)
+        if v.dtype == object:
+            for idx in np.ndindex(v.shape):
+                populated_array[idx] = _bind_parameters(v[idx], values)
+        return populated_array
+
+    return v
+
+
 def numpy_to_blackbird(A, var_name):
     """Converts a numpy array to a Blackbird script array type.
 
@@ -286,60 +324,14 @@ class BlackbirdProgram:
                 continue
 
             for idx, a in enumerate(op['args']):
-                if isinstance(a, sym.Expr):
-                    par = list(a.free_symbols)
-                    func = sym.lambdify(par, a)
-
-                    try:
-                        vals = {str(p): kwargs[str(p)] for p in par}
-                    except KeyError:
-                        raise ValueError("Invalid value for free parameter provided")
-
-                    op['args'][idx] = func(**vals)
+                op['args'][idx] = _bind_parameters(a, kwargs)
 
             for k, v in op['kwargs'].items():
-                if isinstance(v, sym.Expr):
-                    par = list(v.free_symbols)
-                    func = sym.lambdify(par, v)
-
-                    try:
-                        vals = {str(p): kwargs[str(p)] for p in par}
-                    except KeyError:
-                        raise ValueError("Invalid value for free parameter provided")
-
-                    op['kwargs'][k] = func(**vals)
+                op['kwargs'][k] = _bind_parameters(v, kwargs)
 
         # set values for variables and arrays
         for k, v in prog._var.items(): # pylint: disable=protected-access
-            # it can either be an independent parameter for a variable
-            if isinstance(v, sym.Expr):
-                par = list(v.free_symbols)
-                func = sym.lambdify(par, v)
-
-                try:
-                    vals = {str(p): kwargs[str(p)] for p in par}
-                except KeyError:
-                    raise ValueError("Invalid value for free parameter provided")
-
-                prog._var[k] = func(**vals)
-            # or encapsulated in an array
-            elif isinstance(v, np.ndarray):
-                # look through the array and, if there are any parameters,
-                # replace them with their corresponding values from kwargs
-                populated_array = copy.deepcopy(v)
-                for i, j in np.ndindex(v.shape):
-                    if isinstance(v[i][j], sym.Expr):
-                        par = list(v[i][j].free_symbols)
-                        func = sym.lambdify(par, v[i][j])
-
-                        try:
-                            vals = {str(p): kwargs[str(p)] for p in par}
-                        except KeyError:
-                            raise ValueError("Invalid value for free parameter provided")
-
-                        populated_array[i][j] = func(**vals)
-
-                    prog._var[k] = populated_array
+            prog._var[k] = _bind_parameters(v, kwargs)
 
         return prog
 
